@@ -2,6 +2,7 @@ import JominiModel.Model.Dom
 import JominiModel.Spec.Dom
 import JominiModel.Proofs.Dom
 import JominiModel.Proofs.DomGroups
+import JominiModel.Proofs.DomBridge
 /-
 C17 — DOM iterators, lengths and groupings agree with each other.
 
@@ -255,5 +256,37 @@ theorem C17_no_panic (t : Tape) (hw : wfTape t = true) :
     exact ⟨this.2.2.2.2, this.2.1⟩
 
 example : readArray sample 1 = .ok (some (8, 10)) ∧ readObject sample 1 = .ok (some (2, 10)) := by decide +kernel
+
+
+/-! ### bridges: the DOM walks duplicated in other slices' models agree with `Model/Dom.lean`
+
+(`Proofs/DomBridge.lean`; restated here so that they are audited with C17.)  `jTape` / `jTok` /
+`jField` / `jOut` translate the JSON model's tokens, items and outcomes (`panic ↦ panic`,
+`hang ↦ fuel`). -/
+
+open Jomini.DomBridge in
+/-- JSON model: `next_idx` agrees for every tape and every index up to one past the end. -/
+theorem C17_bridge_json_nextIdx : type_of% @json_nextIdx := @json_nextIdx
+open Jomini.DomBridge in
+theorem C17_bridge_json_nextIdxHeader : type_of% @json_nextIdxHeader := @json_nextIdxHeader
+open Jomini.DomBridge in
+theorem C17_bridge_json_nextIdxValues : type_of% @json_nextIdxValues := @json_nextIdxValues
+open Jomini.DomBridge in
+/-- JSON model: one step of `FieldsIter::next` agrees for every tape and state incl. the panic /
+finished outcome, except on the `debug_assert!` arm (JSON model = debug build, Dom = release). -/
+theorem C17_bridge_json_fieldsNext : type_of% @json_fieldsNext := @json_fieldsNext
+open Jomini.DomBridge in
+/-- JSON model: on every `WfObj` range `fieldsAll` = `Dom.fields` (items and final position) and
+`fieldsLen` = their number — so C17_fields_len / C17_groups / C17_remainder apply to it. -/
+theorem C17_bridge_json_fields : type_of% @json_fields := @json_fields
+open Jomini.DomBridge in
+/-- JSON model: whenever `Dom.values` succeeds (C17_values_len: always on a sound tape)
+`valuesAll` yields the same indices. -/
+theorem C17_bridge_json_values : type_of% @json_values := @json_values
+open Jomini.DomBridge in
+theorem C17_bridge_json_remainder : type_of% @json_remainder := @json_remainder
+open Jomini.DomBridge in
+/-- JSON model: `read_array` (plain, mixed loop, header view) gives the reader `Dom.readArray` gives. -/
+theorem C17_bridge_json_readArray : type_of% @json_readArray := @json_readArray
 
 end Jomini.Props.C17
